@@ -4,19 +4,14 @@ sys.path.insert(0, os.path.dirname(__file__))
 from funnel_common import funnel_job, funnel_conc_job, funnel_shared_job, FUNNEL_RULE, FUNNEL_ASSUME
 
 PROP = {
-    "lean_modules": ["ConduitModel.Props.C05"],
+    "lean_modules": ["ConduitModel.Props.BatchProps", "ConduitModel.Props.ArbiterProps"],
     "jobs": [funnel_job("C08"), funnel_conc_job("C08"), funnel_shared_job("C08")],
     "rule": FUNNEL_RULE,
-    "strength": "v2: proved — the tainted loop hands out the batch left to right exactly once (all status vectors); pass-level order "
-                "to each destination is decided by the monitor on every implementation trace + equality with the model (partial: composition not proved). v1: see Props/C05Stream when merged",
+    "strength": 'batch bookkeeping and run ledger: full; whole pass: partial',
     "assumptions": FUNNEL_ASSUME,
 }
 META = {
-    "text": "Lean 4 theorems for every status vector: the sub-batches the arch-v2 worker hands to the next task are non-empty, contiguous, "
-            "in index order and cover the batch exactly once (C05_subbatches_partition / _cover / _groups_progress). The executable model of the "
-            "whole pass (Model/Funnel.lean) is tied to the real funnel.Worker by equality of event logs on generated topologies/scripts, and the "
-            "C08/C04/C01 monitors (each record exactly one outcome; acked positions are source positions) is evaluated on every implementation trace.",
-    "note": "PARTIAL: the composition of the loop theorem with the task recursion (doTaskAttempt/doNextTask/retry) is validated by differential "
-            "testing, not proved. Fan-out concurrency is compared under serial branch orders. Go channel/goroutine semantics, plugins replaced by fakes.",
-    "technique": "Lean 4 proof of the batch-partition law + model/implementation trace equality + Lean-defined trace monitor",
+    "text": 'Lean 4 theorems for every batch and every plugin reply: all Batch mutators preserve the alignment/filter-count invariant (C08_aligned_*), flag/nack/SetRecords marks hit exactly the physical index of the addressed active record and nothing else (C08_mark_hits_right_record*, C08_setRecords_hits_right_record, C08_dest_marks_right_record), the split-run ledger releases a run exactly once when all live pieces voted, nack iff some piece failed (C08_run_released_once*, C08_split_all_before_ack, C08_split_nack_only_after_failure); agreement lemmas tie the pure restatements to the monadic model. Whole-pass accounting is decided by equality with the model and the monitors.',
+    "note": 'PARTIAL: the composition of these leaf theorems with the task recursion of Worker.doTaskAttempt/doNextTask (whole-pass statement) is validated by equality of event logs against the executable Lean model and by the Lean-defined trace monitor on every implementation trace (serial fan-out orders, real concurrent fan-out, several sources into one shared sink), not proved. v1 (default engine) part: Props/*Stream when merged. Trusted: Lean kernel, factgen, harness/fakes, Go runtime.',
+    "technique": 'Lean 4 data-structure invariants and exact-effect theorems + model/implementation trace equality + Lean-defined trace monitor',
 }
